@@ -1,0 +1,38 @@
+//go:build verif
+
+// Contracts for package lexer, read by /verif/engine (comment-only).
+package lexer
+
+// Position bookkeeping (C12, C13): loc is the location of offset end, prev the location before the
+// last rune read; next advances both consistently, backup undoes exactly one next.
+//@ func lexer.lexer.next returns r
+//@   property C12 C13
+//@   mode panics
+//@   requires l != nil && l.end >= 0
+//@   ensures[eof] old(l.end) >= len(l.input) ==> l.width == 0 && l.end == old(l.end) && l.loc.Line == old(l.loc.Line) && l.loc.Column == old(l.loc.Column)
+//@   ensures[advance] old(l.end) < len(l.input) ==> l.end == old(l.end) + l.width && l.prev.Line == old(l.loc.Line) && l.prev.Column == old(l.loc.Column)
+//@   ensures[newline] old(l.end) < len(l.input) && r == 10 ==> l.loc.Line == old(l.loc.Line) + 1 && l.loc.Column == 0
+//@   ensures[same-line] old(l.end) < len(l.input) && r != 10 ==> l.loc.Line == old(l.loc.Line) && l.loc.Column == old(l.loc.Column) + 1
+//@   ensures[start] l.start == old(l.start) && l.startLoc.Line == old(l.startLoc.Line) && l.startLoc.Column == old(l.startLoc.Column)
+
+//@ func lexer.lexer.backup
+//@   property C12 C13
+//@   mode panics
+//@   requires l != nil
+//@   ensures[undo] l.end == old(l.end) - old(l.width) && l.loc.Line == old(l.prev.Line) && l.loc.Column == old(l.prev.Column)
+
+// a token is stamped with the location of its first character (startLoc) and the next token starts at loc
+//@ func lexer.lexer.emitValue
+//@   property C12 C13
+//@   mode panics
+//@   requires l != nil
+//@   ensures[count] len(l.tokens) == old(len(l.tokens)) + 1
+//@   ensures[stamp] l.tokens[old(len(l.tokens))].Location.Line == old(l.startLoc.Line) && l.tokens[old(len(l.tokens))].Location.Column == old(l.startLoc.Column)
+//@   ensures[value] l.tokens[old(len(l.tokens))].Kind == t && l.tokens[old(len(l.tokens))].Value == value
+//@   ensures[restart] l.start == l.end && l.startLoc.Line == l.loc.Line && l.startLoc.Column == l.loc.Column
+
+//@ func lexer.lexer.ignore
+//@   property C12 C13
+//@   mode panics
+//@   requires l != nil
+//@   ensures[restart] l.start == l.end && l.startLoc.Line == l.loc.Line && l.startLoc.Column == l.loc.Column
